@@ -23,6 +23,7 @@ import (
 type Step struct {
 	Ident   int  // index into the fixed identities (one per pool key: 2048/3072/4096 bits); 8 = the case's generated identity
 	Reparse bool // serialise and re-parse the image before this signature
+	Before  int  // read-only calls made on the object just before signing, bits: 1 Hash(SHA-1), 2 Hash(SHA-384), 4 Hash(SHA-512), 8 Bytes, 16 Signatures, 32 Verify, 64 Hash(SHA-512/256)
 }
 
 type Case struct {
@@ -79,7 +80,7 @@ func genCase(t *rapid.T) Case {
 			id = 8
 		}
 		used[id] = true
-		c.Steps = append(c.Steps, Step{Ident: id, Reparse: i > 0 && rapid.Bool().Draw(t, "reparse")})
+		c.Steps = append(c.Steps, Step{Ident: id, Reparse: i > 0 && rapid.Bool().Draw(t, "reparse"), Before: rapid.SampledFrom([]int{0, 0, 0, 1, 2, 4, 8, 16, 32, 64, 3, 24, 127}).Draw(t, "calls_before_signing")})
 	}
 	for o := 7; o >= 0; o-- {
 		if !used[o] {
@@ -159,6 +160,27 @@ func checkCase(c Case) error {
 				return fmt.Errorf("step %d: re-parsing the signed output fails: %v", i, err)
 			}
 			reparsed = true
+		}
+		if st.Before != 0 {
+			// what a caller may do with the object first: none of it is an input of Sign
+			for _, ba := range []struct {
+				bit int
+				alg crypto.Hash
+			}{{1, crypto.SHA1}, {2, crypto.SHA384}, {4, crypto.SHA512}, {64, crypto.SHA512_256}} {
+				if st.Before&ba.bit != 0 {
+					bin.Hash(ba.alg)
+				}
+			}
+			if st.Before&8 != 0 {
+				_ = bin.Bytes()
+			}
+			if st.Before&16 != 0 {
+				bin.Signatures()
+			}
+			if st.Before&32 != 0 {
+				bin.Verify(id.Cert)
+			}
+			hx.Class("read_only_calls_on_the_object_before_signing")
 		}
 		sig, err := bin.Sign(id.Priv(), id.Cert)
 		if err != nil {
